@@ -428,7 +428,18 @@ def check_case(res, c, mline, iline, aline, pfx="c05", compare_model=True):
     info = {"line": c.line(), "name": c.name, "kind": c.kind, "expect": c.expect,
             "mb": getattr(c, "meta_boundary", None).hex() if getattr(c, "meta_boundary", None) else None,
             "impl": iline[:600], "model": (mline or "")[:600]}
-    mres = vlib.split_model(mline)[0] if mline else None
+    mres, spec = vlib.split_model(mline) if mline else (None, None)
+    lm = re.match(r"LM=(\d+)/(\d+)(?: BAD=(\S+))?", spec or "")
+    if lm:
+        d = res.extra.setdefault("literal_matcher_vs_glibc", {"pairs_compared": 0, "agree": 0})
+        d["pairs_compared"] += int(lm.group(2))
+        d["agree"] += int(lm.group(1))
+        if lm.group(3):
+            pat, st = lm.group(3).split(":")
+            res.violation("correspondence", pfx + "-lm:" + hashlib.sha256(lm.group(3).encode()).hexdigest()[:16],
+                          "Dl/LiteralMatcher.v and glibc regexec disagree on pattern %r, string %r (case %s)"
+                          % (bytes.fromhex(pat), bytes.fromhex(st)[:300], c.name),
+                          {"line": c.line(), "name": c.name, "pattern": pat, "string": st})
     bad = False
     for tag, l in (("plain", iline), ("asan", aline)):
         if l is not None and l.split(" ")[0] in ("MEMFAULT", "HANG") or (l is not None and l.startswith("DIED")):
